@@ -621,6 +621,14 @@ package tsm1
 //@   loop 1 invariant none_tombstoned_so_far: 1 <= i && (!dedup ==> all(j, 0, i, j < len(k.blocks) ==> len(k.blocks[j].tombstones) == 0))
 //@   call tsmKeyIterator.combineBoolean#1 requires tombstoned_blocks_take_the_decode_path: dedup || all(j, 0, len(k.blocks), len(k.blocks[j].tombstones) == 0)
 
+// ---- C13: a WAL write entry carries every value it was given ----
+// Encode reuses pooled buffers that are not zeroed: every byte of the encoded region has to be assigned. For the
+// one-byte boolean payload that means both arms write (a false must overwrite whatever the buffer held).
+//@ func (*WriteWALEntry).Encode
+//@   props C13
+//@   nosafety
+//@   loop 2 invariant boolean_byte_is_the_value: rangeindex >= 0 && typeis(v[rangeindex], "tsm1.BooleanValue") ==> n >= 1 && n <= len(dst) && dst[n-1] == ite(unbox(BooleanValue, v[rangeindex]).value, 1, 0)
+
 // ---- C09: compaction never reorders blocks of a key that overlap in time ----
 // merge<T> sorts a key's blocks with sort.Stable(blocks) and then deduplicates in that order, later entries
 // winning. The blocks arrive in file order (oldest generation first), so the order must only ever move a block
